@@ -26,6 +26,11 @@ def gen_program(rng):
 
 def run(ctx):
     q = ctx.quick()
+    # Tier B: SegQueue.tla (segment list under a lock, cells claimed / marked by CAS in any probe order, create_tail / remove_head); invariants: no loss, no
+    # duplicate, every segment but the last is populated, "empty" only if no item was present throughout.  Refuted: seeded change C08 (hoisted CAS expected value)
+    vlib.model_check_many(ctx, [dict(module_rel="queue/SegQueueMC.tla", cfg_rel="queue/SegQueue_q.cfg", workers=2),
+                                dict(module_rel="queue/SegQueueMC.tla", cfg_rel="queue/SegQueue_bad_hoist.cfg", workers=2, expect_violation="Populated")] +
+                               ([] if q else [dict(module_rel="queue/SegQueueMC.tla", cfg_rel="queue/SegQueue_q3.cfg", workers=8, timeout=3000)]), par=3)
     progs = PROGRAMS + [gen_program(ctx.rng) for _ in range(2 if q else 10)]
     deep = [("dfs", 6000 if q else 400000, 2 if q else 3)]
     jobs = make_jobs(ctx, "queue", VARIANTS, progs) + make_jobs(ctx, "queue", VARIANTS, DEEP, strat=deep)
